@@ -303,7 +303,9 @@ Local Notation cache_sound := (cache_sound vars g).
 (* what one call ( *prg_)[ip_].sym->eval( *this) guarantees *)
 Definition post (st : state) (t : tree) (r : mres) (st' : state) : Prop :=
   r = res_of_outcome (den vars t) /\ cache_sound st' /\ example st' = ex /\
-  cache_ext st st' /\ (is_val r -> ip st' = ip st).
+  cache_ext st st' /\ (is_val r -> ip st' = ip st) /\
+  (forall lb, e_valid (cache st' lb) = true ->
+     e_valid (cache st lb) = true \/ needed vars g (ip st) lb).
 
 Definition rec_ok (n : nat) (rec : state -> mres * state) : Prop :=
   forall st t, tree_of n g (ip st) = Some t -> cache_sound st -> example st = ex ->
@@ -320,66 +322,90 @@ Qed.
 Lemma fetch_var_vars : forall st i, example st = ex -> fetch_var src i st = vars i.
 Proof. intros st i E. unfold fetch_var, vars, vars_of. rewrite E. reflexivity. Qed.
 
+Ltac noval := try match goal with |- is_val _ -> _ => intros [] end.
+
 Lemma exec_sound : forall n rec, rec_ok n rec ->
   forall s st ge kids,
     gene_at g (ip st) = Some ge ->
     (forall i, nth_error kids i = kid n g ge i) ->
     (forall i, i < arity (g_sym ge) -> exists ti, kid n g ge i = Some ti) ->
     cache_sound st -> example st = ex ->
+    forall Q : nat -> Prop,
+    (forall j, In j (asked vars s (g_par ge) (den_args vars kids)) -> Q j) ->
     let r := exec src g rec s st in
     fst r = res_of_outcome (apply_strat vars s (g_par ge) (den_args vars kids)) /\
     cache_sound (snd r) /\ example (snd r) = ex /\ cache_ext st (snd r) /\
-    (is_val (fst r) -> ip (snd r) = ip st).
+    (is_val (fst r) -> ip (snd r) = ip st) /\
+    (forall lb, e_valid (cache (snd r) lb) = true ->
+       e_valid (cache st lb) = true \/
+       exists j la, Q j /\ arg_locus ge j = Some la /\ (lb = la \/ needed vars g la lb)).
 Proof.
-  intros n rec Hrec. induction s as [o|i k IH|k IH|i k IH]; intros st ge kids G K KS S E; cbv zeta.
+  intros n rec Hrec. induction s as [o|i k IH|k IH|i k IH]; intros st ge kids G K KS S E Q HQ; cbv zeta.
   - cbn [exec fst snd apply_strat]. repeat split; auto using cache_ext_refl.
   - (* Fetch *)
     cbn [exec apply_strat]. unfold fetch_arg. rewrite G.
-    unfold den_args at 1. rewrite K. unfold kid at 1.
+    cbn [asked] in HQ.
+    unfold den_args at 1. unfold den_args at 1 in HQ. rewrite K in *. unfold kid at 1. unfold kid at 1 in HQ.
     destruct (arg_locus ge i) as [la|] eqn:A.
-    2:{ cbn. repeat split; auto using cache_ext_refl; try (intros []). }
+    2:{ cbn. repeat split; auto using cache_ext_refl; noval. }
     destruct (tree_of n g la) as [ti|] eqn:T.
     2:{ (* the child does not unfold: excluded, all children below arity unfold *)
         exfalso. destruct (KS i (arg_locus_lt _ _ _ A)) as [ti Ti].
         unfold kid in Ti. rewrite A in Ti. congruence. }
-    cbn [option_map].
+    cbn [option_map] in *.
+    assert (Qi : Q i) by (apply HQ; left; reflexivity).
     destruct (tree_of_gene _ _ _ _ T) as [ga Ga].
     rewrite (gene_at_in_matrix _ _ _ Ga). cbn [negb].
     destruct (e_valid (cache st la)) eqn:V.
     + (* memo hit *)
       destruct (S la V) as (n' & t' & T' & D').
-      rewrite (tree_of_det _ _ _ _ _ _ T' T) in D'. rewrite D'.
-      apply IH; assumption.
+      rewrite (tree_of_det _ _ _ _ _ _ T' T) in D'. rewrite D' in *.
+      apply IH; try assumption. intros j Hj. apply HQ. right. exact Hj.
     + (* memo miss: fetch_opaque_arg *)
       unfold fetch_opaque_arg. rewrite G, A.
       assert (P := Hrec (set_ip st la) ti T S E).
       destruct (rec (set_ip st la)) as [r1 st1]. cbn [fst snd] in P.
-      destruct P as (R & S1 & E1 & X1 & I1). subst r1.
+      destruct P as (R & S1 & E1 & X1 & I1 & N1). subst r1.
       destruct (den vars ti) as [v| |] eqn:D; cbn [res_of_outcome].
       * set (st2 := store (set_ip st1 (ip st)) la v).
         assert (S2 : cache_sound st2).
         { intros lb Vb. unfold st2, store in *. cbn [cache set_ip] in *.
-          destruct (locus_eqb lb la) eqn:Q.
-          - apply locus_eqb_eq in Q. subst lb. cbn [e_value]. eauto.
+          destruct (locus_eqb lb la) eqn:Q0.
+          - apply locus_eqb_eq in Q0. subst lb. cbn [e_value]. eauto.
           - apply S1. exact Vb. }
         assert (X2 : cache_ext st st2).
         { intros lb Vb. unfold st2, store. cbn [cache set_ip].
-          destruct (locus_eqb lb la) eqn:Q.
-          - apply locus_eqb_eq in Q. subst lb. congruence.
+          destruct (locus_eqb lb la) eqn:Q0.
+          - apply locus_eqb_eq in Q0. subst lb. congruence.
           - apply (X1 lb). exact Vb. }
+        assert (N2 : forall lb, e_valid (cache st2 lb) = true ->
+                  e_valid (cache st lb) = true \/ lb = la \/ needed vars g la lb).
+        { intros lb Vb. unfold st2, store in Vb. cbn [cache set_ip] in Vb.
+          destruct (locus_eqb lb la) eqn:Q0.
+          - apply locus_eqb_eq in Q0. auto.
+          - destruct (N1 lb Vb) as [H|H]; [left; exact H|right; right; exact H]. }
         assert (G2 : gene_at g (ip st2) = Some ge) by exact G.
-        destruct (IH v st2 ge kids G2 K KS S2 E1) as (R3 & S3 & E3 & X3 & I3).
+        assert (HQ2 : forall j, In j (asked vars (k v) (g_par ge) (den_args vars kids)) -> Q j).
+        { intros j Hj. apply HQ. right. exact Hj. }
+        destruct (IH v st2 ge kids G2 K KS S2 E1 Q HQ2) as (R3 & S3 & E3 & X3 & I3 & N3).
         repeat split; auto.
-        eapply cache_ext_trans; eauto.
-      * cbn [fst snd]. repeat split; auto; try (intros []).
-      * cbn [fst snd]. repeat split; auto; try (intros []).
+        -- eapply cache_ext_trans; eauto.
+        -- intros lb Vb. destruct (N3 lb Vb) as [H|H]; [|right; exact H].
+           destruct (N2 lb H) as [H2|H2]; [left; exact H2|].
+           right. exists i, la. auto.
+      * cbn [fst snd]. repeat split; auto; noval.
+        intros lb Vb. destruct (N1 lb Vb) as [H|H]; [left; exact H|].
+        right. exists i, la. auto.
+      * cbn [fst snd]. repeat split; auto; noval.
+        intros lb Vb. destruct (N1 lb Vb) as [H|H]; [left; exact H|].
+        right. exists i, la. auto.
   - (* Param *)
     cbn [exec apply_strat]. unfold fetch_param. rewrite G. apply IH; assumption.
   - (* Var *)
-    cbn [exec apply_strat]. rewrite (fetch_var_vars st i E).
+    cbn [exec apply_strat]. rewrite (fetch_var_vars st i E). cbn [asked] in HQ.
     destruct (vars i) as [v|].
     + apply IH; assumption.
-    + cbn. repeat split; auto using cache_ext_refl; try (intros []).
+    + cbn. repeat split; auto using cache_ext_refl; noval.
 Qed.
 End Sound.
 
@@ -389,8 +415,16 @@ Proof.
   - discriminate.
   - destruct (tree_of_S_inv _ _ _ _ T) as (ge & kids & G & -> & K & KS).
     cbn [eval_sym]. rewrite G.
-    pose proof (exec_sound src g ex n _ IH (s_strat (g_sym ge)) st ge kids G K KS S E) as P.
-    cbv zeta in P. unfold post. rewrite den_eq. exact P.
+    pose proof (exec_sound src g ex n _ IH (s_strat (g_sym ge)) st ge kids G K KS S E
+                  (fun j => In j (asked_at (vars_of src ex) (Node (g_sym ge) (g_par ge) kids)))
+                  (fun j Hj => Hj)) as P.
+    cbv zeta in P. unfold post. rewrite den_eq.
+    destruct P as (P1 & P2 & P3 & P4 & P5 & P6).
+    repeat split; auto.
+    intros lb Vb. destruct (P6 lb Vb) as [H|(j & la & Qj & A & H)]; [left; exact H|right].
+    assert (AS : asks (vars_of src ex) g (ip st) la).
+    { exists (Datatypes.S n), (Node (g_sym ge) (g_par ge) kids), ge, j. auto. }
+    destruct H as [->|H]; [apply needed_one; exact AS|eapply needed_more; eauto].
 Qed.
 
 Lemma invalidate_sound : forall vars g st l, cache_sound vars g (set_ip (invalidate st) l).
@@ -418,7 +452,7 @@ Lemma run_locus_fuel_state : forall src g n l t st,
   example (snd r) = example st /\
   (is_val (fst r) -> ip (snd r) = l).
 Proof.
-  intros src g n l t st T r. destruct (run_locus_fuel_sound src g n l t st T) as (_ & S & E & _ & I).
+  intros src g n l t st T r. destruct (run_locus_fuel_sound src g n l t st T) as (_ & S & E & _ & I & _).
   repeat split; assumption.
 Qed.
 
@@ -543,4 +577,16 @@ Proof.
   intros src g1 g2 n1 n2 l1 l2 t st1 st2 T1 T2 E.
   rewrite (run_locus_fuel_den src g1 n1 l1 t st1 T1), (run_locus_fuel_den src g2 n2 l2 t st2 T2), E.
   reflexivity.
+Qed.
+
+(* operational laziness: after a run from l, every valid memo entry is at a
+   locus reached from l through arguments that were asked for *)
+Lemma only_needed_evaluated : forall src g n l t st,
+  tree_of n g l = Some t ->
+  forall lb, e_valid (cache (snd (run_locus_fuel src g n l st)) lb) = true ->
+    needed (vars_of src (example st)) g l lb.
+Proof.
+  intros src g n l t st T lb Vb.
+  destruct (run_locus_fuel_sound src g n l t st T) as (_ & _ & _ & _ & _ & N).
+  destruct (N lb Vb) as [H|H]; [cbn in H; discriminate|exact H].
 Qed.
